@@ -113,6 +113,14 @@ def register(op):
         seq, sst = a
         return _stable(lambda: _unmodified(lambda s, t: [list(x) for x in cu.rotate_complex_db(s, t)], list(seq), list(sst)))
 
+    @op("rotate_complex_db_str")
+    def _(a):
+        """sequence and structure given as strings (nucleotide level: one character per position)"""
+        seq, sst = a
+        if any(len(x) != 1 for x in seq):
+            raise ValueError("harness: rotate_complex_db_str needs one-character names")
+        return [[list(x), list(y)] for x, y in cu.rotate_complex_db("".join(seq), "".join(sst))]
+
     @op("split_complex_db")
     def _(a):
         seq, sst = a
